@@ -364,7 +364,32 @@ class ReplaceIf(ast.NodeTransformer):
 class ReplaceMatch(ast.NodeTransformer):
     """Transforms Python match/case into VerilogCase."""
 
+    def guardedMatchToIfChain(self, node):
+        # A case whose guard is false does not end the match: Python goes on with
+        # the following cases (and the default). A Verilog case item can not do
+        # that, so a match with guards becomes an if / else if chain
+        import copy
+        chain = []
+        for c in reversed(node.cases):
+            if isinstance(c.pattern, ast.MatchAs) and c.pattern.name is None:
+                test = c.guard
+            elif isinstance(c.pattern, ast.MatchValue):
+                test = ast.Compare(left=copy.deepcopy(node.subject), ops=[ast.Eq()], comparators=[c.pattern.value])
+                if not(c.guard is None):
+                    test = ast.BoolOp(op=ast.And(), values=[test, c.guard])
+            else:
+                raise NotImplementedError(f"Unsupported match pattern: {ast.dump(c.pattern)}")
+                
+            if (test is None):
+                chain = list(c.body)
+            else:
+                chain = [ast.If(test=test, body=list(c.body), orelse=chain)]
+        return chain
+
     def visit_Match(self, node):
+        if any(not(c.guard is None) for c in node.cases):
+            return [self.visit(stmt) for stmt in self.guardedMatchToIfChain(node)]
+        
         # Visit the subject expression
         subject = self.visit(node.subject)
 
